@@ -9,7 +9,7 @@ def available():
     return shutil.which('node') is not None
 
 
-def run_batch(cases, timeout=3600):
+def run_batch(cases, timeout=3600, _retry=True):
     """Run all cases in one node process; returns list of result dicts (same order)."""
     if not cases:
         return []
@@ -22,4 +22,27 @@ def run_batch(cases, timeout=3600):
     outs = [json.loads(l) for l in p.stdout.decode().split('\n') if l]
     if len(outs) != len(cases):
         raise RuntimeError('node driver returned %d results for %d cases; stderr=%s' % (len(outs), len(cases), p.stderr.decode(errors='replace')[-2000:]))
+    if _retry:
+        # a HANG verdict is a wall-clock judgement: confirm it alone in a fresh node process (generous timeout) before believing it,
+        # so that a loaded machine can never produce an alarm
+        for i, o in enumerate(outs):
+            if _is_hang(o):
+                env2 = dict(env)
+                env2['VERIF_JS_HANG_MS'] = '60000'
+                p2 = subprocess.run(['node', '--stack-size=4000', DRIVER], input=(json.dumps(cases[i], ensure_ascii=True) + '\n').encode(), stdout=subprocess.PIPE, stderr=subprocess.PIPE, env=env2, timeout=timeout)
+                lines = [l for l in p2.stdout.decode().split('\n') if l]
+                if p2.returncode == 0 and len(lines) == 1:
+                    outs[i] = json.loads(lines[0])
     return outs
+
+
+def _is_hang(o):
+    if not isinstance(o, dict):
+        return False
+    e = o.get('error')
+    if isinstance(e, dict) and e.get('name') == 'HANG':
+        return True
+    for k in ('base', 'bulk'):
+        if isinstance(o.get(k), dict) and _is_hang(o[k]):
+            return True
+    return any(_is_hang(d.get('result')) for d in o.get('diffs', []) if isinstance(d, dict))
